@@ -391,6 +391,16 @@ Proof.
   apply alternate_expect. rewrite (i_alt _ _ I). discriminate.
 Qed.
 
+(* when the call has returned the callbacks are BALANCED: every connect has had its disconnect (the next
+   callback the alternation would allow is a connect) - a return from inside a connection without the
+   disconnect report is not a run of the system *)
+Theorem callbacks_balanced_at_return : forall cs,
+  s_m (fst (run init cs)) = MReturned -> expect_after true (cbs (snd (run init cs))) = Some true.
+Proof.
+  intros cs H. pose proof (inv_run cs init [] inv_init) as I. cbn [app] in I.
+  rewrite (i_alt _ _ I), H. reflexivity.
+Qed.
+
 Theorem cancelled_flag_sound : forall cs,
   cancelled_last (cbs (snd (run init cs))) = true /\
   forall h1 h2, snd (run init cs) = h1 ++ LbDisconnect true :: h2 -> has_cancel h1 = true.
